@@ -7,7 +7,7 @@ use super::{
 };
 use crate::{
     error::{WriterError, WriterResult},
-    model::{Namespace, field::resolve_type, node::RustNode},
+    model::{Namespace, field::resolve_type, node::RustNode, structures::RustType},
     reader::{WELL_KNOWN_NAMESPACES, WriteXml},
 };
 use roxmltree::{Document, Node};
@@ -152,8 +152,30 @@ impl RustDocument {
         xml_name: &str,
         namespace: Option<&Namespace>,
     ) -> Option<Rc<RustNode>> {
+        self.find_component_by_xml_name(start_node, xml_name, namespace, false)
+    }
+
+    /// The base of an extension is a type: a global element that carries the same name is a different component.
+    pub fn find_type_by_xml_name<'n>(
+        &mut self,
+        start_node: &Node<'n, 'n>,
+        xml_name: &str,
+        namespace: Option<&Namespace>,
+    ) -> Option<Rc<RustNode>> {
+        self.find_component_by_xml_name(start_node, xml_name, namespace, true)
+    }
+
+    fn find_component_by_xml_name<'n>(
+        &mut self,
+        start_node: &Node<'n, 'n>,
+        xml_name: &str,
+        namespace: Option<&Namespace>,
+        types_only: bool,
+    ) -> Option<Rc<RustNode>> {
         let rust_node = self.nodes.iter().find(|node| {
-            node.rust_type.xml_name().is_some_and(|n| n == xml_name) && node.in_namespace.as_deref() == namespace
+            node.rust_type.xml_name().is_some_and(|n| n == xml_name)
+                && node.in_namespace.as_deref() == namespace
+                && !(types_only && matches!(node.rust_type, RustType::Element(_)))
         });
 
         if let Some(rust_node) = rust_node {
@@ -166,7 +188,7 @@ impl RustDocument {
         }
 
         self.resolving.push(xml_name.to_string());
-        let alt_node = try_to_find_node_by_xml_name_in_xml_doc(start_node, xml_name, namespace, self);
+        let alt_node = try_to_find_node_by_xml_name_in_xml_doc(start_node, xml_name, namespace, types_only, self);
         self.resolving.pop();
 
         Some(alt_node.ok()?.into())
@@ -201,6 +223,7 @@ fn try_to_find_node_by_xml_name_in_xml_doc<'n>(
     start_node: &'n Node<'n, 'n>,
     xml_name: &str,
     namespace: Option<&Namespace>,
+    types_only: bool,
     doc: &mut RustDocument,
 ) -> WriterResult<RustNode> {
     // get to the root of the document from the start node
@@ -223,6 +246,10 @@ fn try_to_find_node_by_xml_name_in_xml_doc<'n>(
             if namespace.namespace != target_namespace {
                 continue;
             }
+        }
+
+        if types_only && node.tag_name().name() == "element" {
+            continue;
         }
 
         if node.is_element() {
